@@ -851,6 +851,12 @@ def rule_flow_sync(ctx):
                 okn = isinstance(nw, tuple) and (nw[0] in ('fld', 'param', 'payload') or (nw[0] == 'call' and 'callback' in str(nw[1])) or nw == ('c', 1) or
                                                  any(len(e[2]) > 1 and e[2][1] == nw for e in stored))
                 r.instance(function=root, kind='update' if occupied else 'insert', old_weight=fmt(ow)[:60], new_weight=fmt(nw)[:40], ok=bool(okw and okn))
+                # an update publishes its weight in the shared entry info BEFORE it leaves the slot: the next writer of the key reads it as ITS
+                # old_weight, whether or not this op has been applied by then (the ops of one key form a chain w0->w1, w1->w2, ..)
+                if occupied and okw and okn and not any(len(e[2]) > 1 and e[2][1] == nw for e in stored):
+                    r.violate(root, 'op-weights', 'weight-not-published', 'the update path of %s creates Upsert{old_weight: stored weight, new_weight: `%s`} but does not store that new weight into the '
+                              'shared entry info while it holds the slot: a second update queued before maintenance runs reads the same stale old_weight, and the counters drift by the '
+                              'difference' % (root, fmt(nw)[:40]), where=ctx.where(root), expected='entry_info.set_policy_weight(new_weight) in the update arm')
                 if not (okw and okn):
                     r.violate(root, 'op-weights', 'old=%s' % ('slot' if occupied else 'vacant'), 'the write op created by %s on the %s path carries old_weight `%s` / new_weight `%s`: an update must carry the '
                               'replaced entry\'s stored weight read from the map slot it replaces (under the same shard lock -- unconditionally, it is applied after every earlier op of that '
@@ -858,6 +864,26 @@ def rule_flow_sync(ctx):
                               where=ctx.where(root), expected='Upsert { old_weight: slot.policy_weight() | 0, new_weight: weight }')
         if nops < 2 and not r.violations:
             raise CheckFailure('FLOW-op-weights: only %d write op(s) found on the paths of %s' % (nops, root))
+    # AUTH-admitted-writer: the `admitted` flag of an entry says "this entry is linked and counted"; the remove role branches on it.  Only the
+    # maintenance run (admission sets it, the remove role clears it) may write it -- a writer that clears it before queueing the removal makes
+    # the remove role skip the unlinking and the counter give-back
+    flag_fields = [(an, f_['name']) for an, a_ in prog.adts.items() if an.startswith('common::concurrent::') for v_ in a_['variants'] for f_ in v_['fields']
+                   if 'admitted' in str(f_['name'])]
+    flag_writers = set()
+    for an, fn2 in flag_fields:
+        flag_writers |= set(ctx.eff.who_has(('write', an, fn2)))
+    if flag_fields and flag_writers:
+        for pp in sorted(prog.public_api()):
+            if not pp.startswith(('sync::', '<sync::')):
+                continue
+            path = prog.call_path(pp, lambda y: y in flag_writers, avoid=R.maintenance)
+            r.instance(public_entry=pp, writes_admitted_flag_outside_maintenance=bool(path))
+            if path:
+                r.violate(pp, 'admitted-flag-writer', path[-1].split('::')[-1], '%s can write the `admitted` flag of an entry outside the maintenance run (%s): the remove role later takes the entry for '
+                          'one that never had deque nodes, so its nodes, its weight and its count are never given back' % (pp, ' -> '.join(x.split('::')[-1] for x in path)),
+                          where=ctx.where(path[-2] if len(path) > 1 else pp), path=path, expected='only handle_admit / the remove role write is_admitted')
+    elif ctx.has_sync:
+        raise CheckFailure('FLOW-counters(sync): the admitted flag and its writers were not found')
     # AUTH-counter-writers / MUST-publish
     maint = sorted(R.maintenance)
     for f in ('entry_count', 'weighted_size'):
